@@ -81,7 +81,10 @@ impl Ctx {
         self.violation_k(property, request, detail, None)
     }
     pub fn violation_k(&mut self, property: &str, request: &str, detail: String, known: Option<&str>) {
-        if self.violations.len() < 200 {
+        // stored examples are capped per (property, known id): entries of the known-findings file must never
+        // crowd out a violation that is not listed there
+        let same = self.violations.iter().filter(|v| v.property == property && v.known.as_deref() == known).count();
+        if same < if known.is_some() { 40 } else { 200 } {
             self.violations.push(Violation {
                 property: property.to_string(),
                 request: request.to_string(),
